@@ -655,7 +655,56 @@ def ctor_agreement(facts, res, R="C04.6.constructors-agree"):
             diff = sorted(set(norm) ^ set(ref[1]))
             res.violation(R, tbf.rel(facts.path_of(c)), c["qname"], "members@%d" % c["l"][1], c["l"][1], "this constructor and the one at line %d do not initialise the same members (%s): a copied kernel differs from the original" % (ref[0]["l"][1], diff))
         if calls != ref[2]:
-            res.violation(R, tbf.rel(facts.path_of(c)), c["qname"], "builders@%d" % c["l"][1], c["l"][1], "this constructor runs %s, the one at line %d runs %s: a copied kernel has other tables than the original" % (calls, ref[0]["l"][1], ref[2]))
+            missing = [b for b in ref[2] if b not in calls]
+            explained = False
+            if is_copy(c) and missing:
+                # a copy constructor may take finished tables from the source object instead of rebuilding them - provided every member the
+                # skipped builder fills is copied from the SAME member of the source
+                cx = tbf.expand_member_helpers(facts, c)
+                od = c["params"][0]["did"]
+                copied = {}
+                for x in walk(tbf.body(cx)):
+                    dst = srcm = None
+                    if x.get("k") in ("CallExpr", "CXXMemberCallExpr") and tbf.callee_name(x) in ("memcpy", "copyall", "copy", "copy_n", "memmove") and len(tbf.call_args(x)) >= 2:
+                        a0, a1 = strip(tbf.call_args(x)[0]), strip(tbf.call_args(x)[1])
+                        if tbf.callee_name(x) in ("copy", "copy_n"):
+                            a0, a1 = strip(tbf.call_args(x)[-1]), strip(tbf.call_args(x)[0])
+                        dm = [y for y in walk(a0) if y.get("k") in ("MemberExpr", "CXXDependentScopeMemberExpr") and (not kids(y) or strip(kids(y)[0]).get("k") == "CXXThisExpr")]
+                        sm = [y for y in walk(a1) if y.get("k") in ("MemberExpr", "CXXDependentScopeMemberExpr") and kids(y) and strip(kids(y)[0]).get("did") == od]
+                        if dm and sm:
+                            dst, srcm = dm[0]["name"], sm[0]["name"]
+                    elif x.get("k") in ("BinaryOperator", "CXXOperatorCallExpr") and x.get("op") == "=" and kids(x):
+                        l0 = strip(kids(x)[0] if x.get("k") == "BinaryOperator" else kids(x)[1])
+                        r0 = strip(kids(x)[1] if x.get("k") == "BinaryOperator" else kids(x)[-1])
+                        if l0.get("k") in ("MemberExpr", "CXXDependentScopeMemberExpr") and (not kids(l0) or strip(kids(l0)[0]).get("k") == "CXXThisExpr") \
+                                and r0.get("k") in ("MemberExpr", "CXXDependentScopeMemberExpr") and kids(r0) and strip(kids(r0)[0]).get("did") == od:
+                            dst, srcm = l0["name"], r0["name"]
+                    if dst is not None:
+                        copied[dst] = (srcm, x)
+                need = set()
+                for b in missing:
+                    for g in facts.methods_of(K):
+                        if g["name"] == b and tbf.body(g) is not None:
+                            for y in walk(tbf.body(g)):
+                                if y.get("k") in ("BinaryOperator", "CompoundAssignOperator") and y.get("op", "").endswith("=") and y.get("op") not in ("==", "!=", "<=", ">="):
+                                    l0 = strip(kids(y)[0])
+                                    while l0.get("k") in ("ArraySubscriptExpr", "CXXOperatorCallExpr") and len(kids(l0)) >= 2:
+                                        l0 = strip(kids(l0)[-2])
+                                    if l0.get("k") in ("MemberExpr", "CXXDependentScopeMemberExpr") and (not kids(l0) or strip(kids(l0)[0]).get("k") == "CXXThisExpr"):
+                                        need.add(l0["name"])
+                wrong = {d_: v_ for d_, v_ in copied.items() if v_[0] != d_}
+                res.instance(R, "copy constructor@%d takes finished tables" % c["l"][1], facts.loc(c), "skips %s (fills %s); copies %s from the source object" % (missing, sorted(need), sorted(copied)))
+                for d_, (s_, node_) in sorted(wrong.items()):
+                    res.violation(R, tbf.rel(facts.path_of(node_)), c["qname"], "copy:%s" % d_, node_["l"][1],
+                                  "the copy constructor fills '%s' from the source object's '%s': a copied kernel (every per-worker kernel of the task executors, a kernel handed to an executor by value) uses another table than the original" % (d_, s_))
+                left = sorted(need - set(copied))
+                if need and not left:
+                    explained = True
+                elif left and copied:
+                    res.violation(R, tbf.rel(facts.path_of(c)), c["qname"], "copy-missing@%d" % c["l"][1], c["l"][1], "the copy constructor skips %s but does not copy %s, which that builder fills: the copied kernel uses uninitialised tables" % (missing, left))
+                    explained = True
+            if not explained:
+                res.violation(R, tbf.rel(facts.path_of(c)), c["qname"], "builders@%d" % c["l"][1], c["l"][1], "this constructor runs %s, the one at line %d runs %s: a copied kernel has other tables than the original" % (calls, ref[0]["l"][1], ref[2]))
         # a copy must take each member from the same member of the source object
         for mname, t in norm.items():
             if "ARG." in t and not re.fullmatch(r"ARG\.%s" % re.escape(mname), t):
